@@ -156,6 +156,11 @@ JudgeModel(r) ==
   \E pred \in {Rewrite(rin, r.cfg)} :
     IF pred.status # r.status
     THEN Verdict(r.rid, "L1", "drift", <<"status predicted", pred.status, "observed", r.status>>)
+    ELSE IF r.has_events /\ pred.ev # [i \in 1..Len(r.events) |-> <<r.events[i].ev, r.events[i].a, r.events[i].b, r.events[i].s>>]
+    THEN Verdict(r.rid, "L1", "drift", <<"traversal events differ; first difference at",
+                 CHOOSE i \in 1..(Len(r.events) + 1) :
+                   /\ (i > Len(r.events) \/ i > Len(pred.ev) \/ pred.ev[i] # <<r.events[i].ev, r.events[i].a, r.events[i].b, r.events[i].s>>)
+                   /\ \A j \in 1..(i - 1) : j <= Len(pred.ev) /\ pred.ev[j] = <<r.events[j].ev, r.events[j].a, r.events[j].b, r.events[j].s>>>>)
     ELSE IF r.status # "modified" THEN Verdict(r.rid, "L1", "ok0", r.status)
     ELSE \E rout \in {TreeOf(r.out)} :
          \E d \in {IF ~r.swc_out_ok THEN "output does not parse" ELSE ShapeDiff(Shape(pred.out), Shape(rout))} :
@@ -169,7 +174,9 @@ JudgeCancelled(r) ==
   \* a refused rewrite of a parsable input: the model must predict the refusal too
   \E rin \in {TreeOf(r.in)} :
   \E pred \in {Rewrite(rin, r.cfg)} :
-    IF pred.outcome = "cancelled" THEN Verdict(r.rid, "L1", "ok", "refusal predicted")
+    IF pred.outcome = "cancelled" /\ (~r.has_events \/ pred.ev = [i \in 1..Len(r.events) |-> <<r.events[i].ev, r.events[i].a, r.events[i].b, r.events[i].s>>])
+    THEN Verdict(r.rid, "L1", "ok", "refusal predicted")
+    ELSE IF pred.outcome = "cancelled" THEN Verdict(r.rid, "L1", "drift", "refusal predicted, traversal events differ")
     ELSE Verdict(r.rid, "L1", "drift", <<"observed a refusal, predicted", pred.status>>)
 
 (* L0 pipeline self-check for TLC-enumerated programs: parsing the printed text gives back the enumerated tree *)
